@@ -91,7 +91,8 @@ static void parse_rule(struct rule *r, const char *v, int with_idx) {
 
 static void dump(void) {
     const char *out = getenv("FAULTSHIM_OUT");
-    if (!out || !real_open) return;
+    extern char *program_invocation_short_name;
+    if (!out || !real_open || strcmp(program_invocation_short_name, "rg") != 0) return;
     char buf[1024];
     int n = snprintf(buf, sizeof buf,
         "epipe=%ld\nshort_write=%ld\nopen_err=%ld\nopendir_err=%ld\nread_err=%ld\nread_eintr=%ld\nread_frag=%ld\nopens=%ld\nopens_after_epipe=%ld\nstdout_written=%ld\nread_eof=%ld\n",
@@ -116,6 +117,10 @@ static void init(void) {
     const char *r = getenv("FAULTSHIM_ROOT");
     if (r) strncpy(root, r, sizeof root - 1);
     const char *plan = getenv("FAULTSHIM_PLAN");
+    /* The environment is inherited by rg's child processes (--pre, -z); the
+     * plan is meant for rg itself only. */
+    extern char *program_invocation_short_name;
+    if (plan && strcmp(program_invocation_short_name, "rg") != 0) plan = NULL;
     if (plan) {
         char *copy = strdup(plan), *save = NULL;
         for (char *tok = strtok_r(copy, ";", &save); tok; tok = strtok_r(NULL, ";", &save)) {
